@@ -4,6 +4,7 @@ import (
 	"bytes"
 	"context"
 	"fmt"
+	"io"
 	"net/http"
 	"sort"
 	"strings"
@@ -197,7 +198,7 @@ func runCfg(run *rep.Run, c cfg, id int) {
 			type variant struct{ route, spelling, model string }
 			vs := []variant{{"proxy", "exact", M}}
 			// rotate the other variants over the cases to keep the run short
-			others := []variant{{"proxy", "other-case", "MM-7B"}, {"provider", "exact", M}, {"anthropic", "exact", M}, {"proxy", "lower-of-mixed-case-listing", "tagged:latest"}, {"anthropic", "other-case", "Mm-7b"}, {"provider", "other-case", "MM-7b"}, {"proxy", "exact+body>1MiB", M}, {"provider-unknown-path", "exact", M}, {"anthropic", "exact+body>1MiB", M}, {"proxy-unknown-path", "exact", M}}
+			others := []variant{{"proxy", "other-case", "MM-7B"}, {"provider", "exact", M}, {"anthropic", "exact", M}, {"proxy", "lower-of-mixed-case-listing", "tagged:latest"}, {"anthropic", "other-case", "Mm-7b"}, {"provider", "other-case", "MM-7b"}, {"proxy", "exact+body>1MiB", M}, {"provider-unknown-path", "exact", M}, {"anthropic", "exact+body>1MiB", M}, {"proxy-unknown-path", "exact", M}, {"proxy", "exact+chunked", M}, {"provider", "exact+chunked", M}}
 			if rep.Thorough() || rep.Mode() != "race" {
 				vs = append(vs, others...)
 			} else {
@@ -251,7 +252,11 @@ func oneCase(run *rep.Run, c cfg, st stack, hc *http.Client, backs []*backend.St
 	for _, b := range backs {
 		b.ResetRecords()
 	}
-	req, _ := http.NewRequest("POST", st.base()+path+"?n="+nonce, bytes.NewReader([]byte(body)))
+	var rdr io.Reader = bytes.NewReader([]byte(body))
+	if strings.Contains(spelling, "chunked") {
+		rdr = client.ChunkedReader{R: bytes.NewReader([]byte(body))} // no Content-Length
+	}
+	req, _ := http.NewRequest("POST", st.base()+path+"?n="+nonce, rdr)
 	req.Header.Set("Content-Type", "application/json")
 	res := client.Do(hc, req)
 	landed := -1
